@@ -83,7 +83,7 @@ def run_one(bdir, g, net, idx, wd):
 
 def to_events(g, tp):
     ev = []
-    slack = 3 * 1000 * g["threads"] // NODES_PER_MS + 5
+    slack = 2 * 1000 // NODES_PER_MS + 5      # two polling intervals of the main search thread (the virtual clock follows that thread only)
     for line in open(tp):
         try:
             d = json.loads(line)
@@ -147,7 +147,7 @@ def run(tier, seed):
     rep.cov["rule"] = ("log-uniform wtime/btime 1..1e7, inc 0..1e5, movestogo 0..100, movetime 1..1e5, BufferTime 1..10000, Ponder option, Threads 1..4, "
                        "roots with one and many legal moves, modes plain/stop/ponderhit/ponder+stop; virtual clock = 100 nodes per ms; distinct parameter vectors")
     rep.assumptions += ["MaxNPS is not exercised: its sleep is real time and does not advance the node-driven clock",
-                        "slack = 3 polling intervals (1000 nodes x threads) + 5 ms of virtual time, to absorb helper threads searching faster than the main thread"]
+                        "the virtual clock advances with the nodes of the main search thread only (the thread that polls the limits), so that the verdict does not depend on how the OS schedules helper threads; slack = 2 polling intervals (1000 nodes each) + 5 ms of virtual time"]
     return rep.finish()
 
 
